@@ -377,7 +377,9 @@ let compare_strings idx st report =
     let observed = obs () in
     if !coq_budget > 0 then begin
       (match observed with
-       | ("net", t) :: _ when t <> "<panic>" && String.length t < 60000 && List.length n.nw_ent.e_desc < 2000 ->
+       | ("net", t) :: _ when t <> "<panic>" && String.length t < 15000 && List.length n.nw_ent.e_desc < 2000
+                              && String.length (c_snet n) < 20000 ->
+         (* bound: coqc overflows its default stack on one string literal of ~50 KB (round-6 long-text cases) *)
          decr coq_budget;
          Buffer.add_string coq_buf (Printf.sprintf "Definition s_%s : snet := %s.\nDefinition t_%s : string := %s.\n" idx (c_snet n) idx (q t));
          coq_checks := Printf.sprintf "check_string s_%s t_%s" idx idx :: !coq_checks
@@ -426,8 +428,13 @@ let () =
        incr cases;
        if !coq_budget > 0 && not obs_err && List.length observed < 400 && List.length net.nt_desc < 2000
           && not (List.exists (function Para t -> List.mem '\n' t | _ -> false) (blocks net)) then begin
-         Buffer.add_string coq_buf (Printf.sprintf "Definition n_%s : net := %s.\nDefinition o_%s : list block := %s.\n" idx (c_net net) idx (lst c_block_of_obs observed));
-         coq_checks := Printf.sprintf "check_md n_%s o_%s" idx idx :: !coq_checks
+         (* very long names / descriptions (5 KB per entity) make a term coqc cannot parse on its default stack:
+            such cases stay in the extracted-model comparison and are left out of the vm_compute sample *)
+         let dn = c_net net and dobs = lst c_block_of_obs observed in
+         if String.length dn < 20000 && String.length dobs < 20000 then begin
+           Buffer.add_string coq_buf (Printf.sprintf "Definition n_%s : net := %s.\nDefinition o_%s : list block := %s.\n" idx dn idx dobs);
+           coq_checks := Printf.sprintf "check_md n_%s o_%s" idx idx :: !coq_checks
+         end
        end;
        let model = md net in
        let model_lines = List.concat_map show_lines (blocks net) in
